@@ -6,6 +6,7 @@
    original (Prolog) order with duplicates kept.  Only statements here. *)
 From Coq Require Import ZArith NArith List Bool.
 From PL.C19 Require Import ModelSelectSublist ProofsSelectSublist.
+From PL.C19 Require Import SelectPrelude GenSelectSublist ProofsGen.
 Import ListNotations.
 
 Theorem C19_partition_exists : forall (T : Type) (a : Z -> bool) (lst : list (T * key)),
@@ -40,6 +41,50 @@ Example C19_example :
    ([2; 3]%Z, [kTRUE; Some (-7); Some (-5); kTRUE]%Z);
    ([1; 2]%Z, [Some 5; kTRUE; Some 7; kTRUE]%Z);
    ([2]%Z, [kTRUE; Some (-5); Some 7; kTRUE]%Z)].
+Proof. vm_compute. reflexivity. Qed.
+
+(* ------------------------------------------------------------------------------------
+   Tie by translation: GenSelectSublist.v is regenerated on every run from
+   problog/engine_builtin.py `_select_sublist` and problog/formula.py `BaseFormula.negate/TRUE/FALSE`
+   by the fail-closed translator gen/c19_select_sublist.py (vocabulary: SelectPrelude.v).
+   The translated code IS the hand model, on every list: *)
+Theorem C19_generated_is_model : forall (T : Type) (lst : list (T * key)),
+  select_sublist_gen lst = select_sublist lst.
+Proof. exact select_sublist_gen_is_model. Qed.
+Print Assumptions C19_generated_is_model.
+
+Theorem C19_generated_negate_is_model : forall k : key, negate_gen k = negate k.
+Proof. exact negate_gen_ok. Qed.
+Print Assumptions C19_generated_negate_is_model.
+
+(* ... hence the partition theorems hold of the translated generator itself: for every assignment
+   some yielded pair has its constraints satisfied; every such pair carries exactly the true
+   solutions in order; and no two positions of the yielded sequence are satisfied together *)
+Theorem C19_generated_partition : forall (T : Type) (a : Z -> bool) (lst : list (T * key)),
+  (exists e, In e (select_sublist_gen lst) /\ holds a (snd e) = true) /\
+  (forall e, In e (select_sublist_gen lst) -> holds a (snd e) = true ->
+     fst e = map fst (filter (fun x => val a (snd x)) lst)) /\
+  (forall i j, i < length (select_sublist_gen lst) -> j < length (select_sublist_gen lst) ->
+     holds a (snd (nth i (select_sublist_gen lst) ([], []))) = true ->
+     holds a (snd (nth j (select_sublist_gen lst) ([], []))) = true -> i = j).
+Proof. exact @gen_partition. Qed.
+Print Assumptions C19_generated_partition.
+
+Theorem C19_generated_enumeration : forall (T : Type) (lst : list (T * key)),
+  select_sublist_gen lst = map (entry lst) (countdown (nbits lst)) /\
+  length (select_sublist_gen lst) = 2 ^ nbits lst.
+Proof.
+  intros T lst. rewrite select_sublist_gen_is_model. split; [reflexivity|].
+  unfold select_sublist, countdown. rewrite !map_length, rev_length, seq_length. reflexivity.
+Qed.
+Print Assumptions C19_generated_enumeration.
+
+Example C19_generated_example :
+  select_sublist_gen [(1%Z, Some 5%Z); (2%Z, kTRUE); (3%Z, Some (-7)%Z); (4%Z, kFALSE)] =
+  [([1; 2; 3]%Z, [Some 5; kTRUE; Some (-7); kTRUE; kTRUE]%Z);
+   ([2; 3]%Z, [kTRUE; Some (-7); Some (-5); kTRUE; kTRUE]%Z);
+   ([1; 2]%Z, [Some 5; kTRUE; Some 7; kTRUE; kTRUE]%Z);
+   ([2]%Z, [kTRUE; Some (-5); Some 7; kTRUE; kTRUE]%Z)].
 Proof. vm_compute. reflexivity. Qed.
 
 (* ====================================================================================
